@@ -255,8 +255,10 @@ P("C14", "exploration",
 P("C39", "exploration",
   "case = two real nodes with a live loopback session and a rotation interval from {5,6,10,60,300} s under the offset virtual clock: first tick both before any rotation is due (keys equal, probe messages flow both ways), then jump to interval-50ms / +1ms / +random / 2x interval, "
   "tick A and B in a chosen order with 0 / 1 / 10 / 500 / 999 ms or > interval between the two ticks; at each observation point: keys equal (and probes delivered), or the session is closed on both sides; distinct = (interval, jump, order, delta)",
-  [H("main", "h_transport", 40, 3000, hprop="C39", qworkers=8)], [A_SAN, "virtual time = real + offset; node threads keep running"],
-  {"rotation.schedules": 30, "rotation.observations.before-rotation-due": 30, "rotation.probes": 30})
+  [H("main", "h_transport", 40, 3000, hprop="C39", qworkers=8), H("identical-instants", "h_node2", 400, 60000, hprop="C39f")],
+  [A_SAN, "virtual time = real + offset; node threads keep running", "second part: frozen virtual clock, 2..4 nodes (a hub with 1..3 sessions established up to 1.5 intervals apart) all ticked at identical clock readings; "
+   "this is the part of the property that holds on the tree (the rotated key is derived from the rotating node's clock reading, see the open finding): every rotation leaves both ends of every session on one key"],
+  {"rotation.schedules": 30, "rotation.observations.before-rotation-due": 30, "rotation.probes": 30, "rotation.identical-instant-ticks": 2000, "rotation.key-changes-observed": 500})
 
 import post_race  # noqa: E402
 
